@@ -68,6 +68,36 @@ CLAIMED = {
         design_ref="DESIGN.md §5 C08",
         note="Trusted: projection (content tag = event id, scaled timestamps), listeners only use the public producer API.",
     ),
+    "C12": dict(
+        technique="TLA+ model checking (TLC) of Streams.tla + TLC-computed integer-draw table + memo-based trace conformance with real MersenneTwister streams",
+        category="model_checking",
+        text="Streams.tla models a stream as (seed label, generator coordinate <<gseed,pos>>) under new/draw/set_seed/reset/save/restore; TLC "
+             "checks independence, reset and restore semantics for all interleavings up to the bound; IntDraw.tla gives lo+floor((hi-lo+1)u) exactly "
+             "for scripted uniforms; behaviours are replayed on real streams and random interleavings over huge/negative seeds and ranges are "
+             "validated by TraceStreams.tla whose memo requires bit-identical uniforms at equal coordinates across streams, resets and restores.",
+        design_ref="DESIGN.md §5 C12",
+        note="Trusted: uniforms behind int/bool draws are observed via save/next_float/restore (recorded events); exact range arithmetic in the projection.",
+    ),
+    "C16": dict(
+        technique="TLA+ model checking (TLC) of Units.tla over tables generated from the live module + SIString.tla parser/printer round trip + execution of every row",
+        category="model_checking",
+        text="UnitsData.tla is dumped from the live _mul/_div/_sidict tables; TLC checks signature soundness of every table entry and of all "
+             "ordered pairs of types, and Parse(Spell(sig,format))=sig for all bounded signatures in 8 formats (parser transcribed from the code); "
+             "every pair row is then executed (*, /, +, -, comparisons, numbers, SI operands, as_quantity, operand reuse) and every spelled "
+             "string is parsed / printed / re-parsed by the real code.",
+        design_ref="DESIGN.md §5 C16",
+        note="Trusted: table dump (harness/units_data.py), bitwise float comparison in the projection.",
+    ),
+    "C17": dict(
+        technique="TLC evaluation of Units.tla well-formedness invariants over tables generated from the live module + exhaustive (class, unit) x sampled value conformance sweep",
+        category="other",
+        text="Structural part (base unit factor one, every unit described, display spelling is text, alias spellings share a factor, every "
+             "advertised name exists) is decided by TLC over the dumped tables, exhaustively; the numeric part (si = value*factor bitwise, "
+             "displayvalue, as_unit keeps si, comparison/neg/abs/add/sub on si, compound units) is a sweep over all classes and units with "
+             "sampled values — TLA+ contributes the invariants, not the float arithmetic.",
+        design_ref="DESIGN.md §5 C17",
+        note="Numeric agreement is sampled over values; exhaustive over the 42 classes and 852 declared units.",
+    ),
 }
 
 NOT_APPLICABLE = {
